@@ -2,9 +2,13 @@
    Only statements here; every proof is `exact <lemma>` (Proofs/StackProofs.v).  Middlewares are arbitrary
    (any type M with any  apply : M -> lib -> res lib); the splitter, the codec (decode) and the sinks
    (write_path, write_obj) are arbitrary too: they are the runtime's and enter as oracles (partial, DESIGN C20 Limits).
+   The last section gives the codec oracle a body for three of the property's four encodings: Model/TextIO.v models what
+   open(path, encoding=e).read() and open(path, "w").write(s) do to bytes and text for utf-8, latin-1 and utf-16 (strict
+   codecs, byte order mark, universal newlines), compared with CPython on every run; the theorems C20_text_* say what
+   the file layer preserves and what it does not (gbk, a table, stays an oracle).
    [in_order] (Spec/C20.v) is "each middleware applied to the result of the one before, left to right". *)
 From Coq Require Import String List NArith ZArith Bool.
-From BP Require Import Base.Chars Model.Blocks Model.Writer Model.Stack Spec.C20 Proofs.StackProofs.
+From BP Require Import Base.Chars Model.Blocks Model.Writer Model.Stack Spec.C20 Proofs.StackProofs Model.TextIO Proofs.TextIOProofs.
 Import ListNotations.
 
 (* parse_string = splitting, then exactly the given parse_stack in the given order, or the default stack followed by
@@ -103,3 +107,63 @@ Proof.
   - reflexivity.
   - apply Exists_cons_tl. apply Exists_cons_hd. right. eexists. split; [reflexivity | right; left; reflexivity].
 Qed.
+
+(* ---- the text layer under parse_file / write_file (Model/TextIO.v), for files and texts of ANY length *)
+Local Open Scope Z_scope.
+
+(* what write_file wrote, parse_file reads back - up to universal newlines: the text handed to parse_string is
+   nl_read of the text write_string returned; identical when the text holds no carriage return *)
+Theorem C20_text_write_then_read : forall e s bs, write_text e s = Some bs -> read_text e bs = Some (nl_read s).
+Proof. exact write_then_read. Qed.
+Print Assumptions C20_text_write_then_read.
+
+Theorem C20_text_file_transparent : forall e s bs, no_cr s = true -> write_text e s = Some bs -> read_text e bs = Some s.
+Proof. exact file_transparent. Qed.
+Print Assumptions C20_text_file_transparent.
+
+(* ... and NOT otherwise: a carriage return inside a value does not survive write_file -> parse_file (it comes back as
+   a line feed); parse_file never hands a carriage return to the splitter *)
+Theorem C20_text_cr_not_preserved : exists s bs, write_text Utf8 s = Some bs /\ read_text Utf8 bs <> Some s.
+Proof. exact file_not_transparent_cr. Qed.
+Print Assumptions C20_text_cr_not_preserved.
+Theorem C20_text_read_no_cr : forall e bs s, read_text e bs = Some s -> no_cr s = true.
+Proof. exact read_no_cr. Qed.
+Print Assumptions C20_text_read_no_cr.
+
+(* the strict decoders accept exactly one spelling of each text: utf-8 no overlong form, no surrogate, nothing above
+   U+10FFFF; utf-16 the mark and then the encoder's units in the announced order.  Hence parse_file(path, e) is an
+   injective function of the bytes it accepts (per byte order), and what it returns can be written again *)
+Theorem C20_text_utf8_canonical : forall bs s, utf8_decode bs = Some s -> utf8_encode s = Some bs.
+Proof. exact utf8_canonical. Qed.
+Print Assumptions C20_text_utf8_canonical.
+Theorem C20_text_utf8_injective : forall b1 b2 s, utf8_decode b1 = Some s -> utf8_decode b2 = Some s -> b1 = b2.
+Proof. exact utf8_decode_injective. Qed.
+Print Assumptions C20_text_utf8_injective.
+Theorem C20_text_utf16_canonical : forall bs s, bytes_ok bs = true -> utf16_decode bs = Some s ->
+  exists us, units_encode s = Some us /\
+             ((bs = [] /\ us = []) \/ bs = 255 :: 254 :: bytes_le us \/ bs = 254 :: 255 :: bytes_be us).
+Proof. exact utf16_canonical. Qed.
+Print Assumptions C20_text_utf16_canonical.
+Theorem C20_text_latin1_total : forall bs, latin1_decode bs = Some bs.
+Proof. exact latin1_decode_total. Qed.
+Print Assumptions C20_text_latin1_total.
+
+(* which texts write_file can write: every text of scalar values under utf-8 (bytes in range), none with a lone
+   surrogate (UnicodeEncodeError) *)
+Theorem C20_text_write_total_utf8 : forall s, scalars s = true -> exists bs, write_text Utf8 s = Some bs /\ bytes_ok bs = true.
+Proof. exact write_total_utf8. Qed.
+Print Assumptions C20_text_write_total_utf8.
+Theorem C20_text_write_refuses_surrogates : forall s, scalars s = false -> write_text Utf8 s = None.
+Proof. exact write_refuses_surrogates_utf8. Qed.
+Print Assumptions C20_text_write_refuses_surrogates.
+
+(* non-vacuity: a document with a non-ASCII letter, an astral character and a CRLF line end, through each codec *)
+Example C20_text_example :
+  let s := [64; 97; 123; 233; 44; 13; 10; 128512; 125] in
+  read_text Utf8 [64; 97; 123; 195; 169; 44; 13; 10; 240; 159; 152; 128; 125] = Some [64; 97; 123; 233; 44; 10; 128512; 125]
+  /\ write_text Utf16 s = Some [255; 254; 64; 0; 97; 0; 123; 0; 233; 0; 44; 0; 13; 0; 10; 0; 61; 216; 0; 222; 125; 0]
+  /\ read_text Utf16 [254; 255; 0; 64; 216; 61; 222; 0] = Some [64; 128512]
+  /\ read_text Utf16 [64; 0] = None                                  (* no byte order mark *)
+  /\ read_text Utf8 [192; 128] = None /\ read_text Utf8 [237; 160; 128] = None   (* overlong; surrogate *)
+  /\ write_text Latin1 s = None /\ read_text Latin1 [233; 13] = Some [233; 10].
+Proof. cbn zeta. repeat split; vm_compute; reflexivity. Qed.
